@@ -20,8 +20,9 @@
 EXTENDS Integers, Sequences, TLC
 
 Rep(w, c) == [i \in 1..c |-> w]
-RECURSIVE SumSeq(_)
-SumSeq(s) == IF Len(s) = 0 THEN 0 ELSE Head(s) + SumSeq(Tail(s))
+RECURSIVE SumUpTo(_, _)
+SumUpTo(s, k) == IF k = 0 THEN 0 ELSE s[k] + SumUpTo(s, k - 1)       \* (index recursion: Tail copies the sequence)
+SumSeq(s) == SumUpTo(s, Len(s))
 RECURSIVE Concat(_)
 Concat(ss) == IF Len(ss) = 0 THEN <<>> ELSE Head(ss) \o Concat(Tail(ss))
 
@@ -60,19 +61,18 @@ Layout(sh) ==
 
 Size(sh) == SumSeq(Layout(sh))
 
-\* run-length encoding <<width, count>>, the form in which the harness records write calls
-RECURSIVE RleFrom(_, _, _, _)
-RleFrom(s, i, w, c) ==
-  IF i > Len(s) THEN (IF c = 0 THEN <<>> ELSE << <<w, c>> >>)
-  ELSE IF s[i] = w THEN RleFrom(s, i+1, w, c+1)
-  ELSE (IF c = 0 THEN <<>> ELSE << <<w, c>> >>) \o RleFrom(s, i+1, s[i], 1)
-Rle(s) == IF Len(s) = 0 THEN <<>> ELSE RleFrom(s, 2, s[1], 1)
+\* run-length encoding <<width, count>>, the form in which the harness records write calls: the recorded runs must be
+\* canonical (positive counts, adjacent runs of different width) and expand to the layout
+Expand(rle) == Concat([i \in 1..Len(rle) |-> Rep(rle[i][1], rle[i][2])])
+CanonicalRle(rle) == /\ \A i \in 1..Len(rle) : rle[i][2] > 0
+                     /\ \A i \in 1..(Len(rle) - 1) : rle[i][1] # rle[i+1][1]
+RleIs(rle, s) == CanonicalRle(rle) /\ Expand(rle) = s
 
 (***************************************************************************)
 (* What one recorded serialization event must satisfy (C14)                *)
 (***************************************************************************)
 SerEventOk(e) ==
-  /\ e.rle = Rle(Layout(e.shape))          \* the bytes are written field by field in the grammar's order
+  /\ RleIs(e.rle, Layout(e.shape))        \* the bytes are written field by field in the grammar's order
   /\ e.announced = Size(e.shape)           \* serialized_size
   /\ e.returned = e.announced              \* the count returned by serialize
   /\ e.written = e.announced               \* bytes that reached the sink
